@@ -23,6 +23,16 @@ fn expand(rec: &Value) -> Vec<u8> {
             b.extend_from_slice(&suffix);
         }
         b
+    } else if let Some(ks) = rec.get("map_keys").and_then(|k| k.as_array()) {
+        // a well-formed MAP_EXT whose keys are the given values: decoding a map compares its keys
+        let mut b = vec![131u8, 116];
+        b.extend_from_slice(&(ks.len() as u32).to_be_bytes());
+        for (i, k) in ks.iter().enumerate() {
+            let kb = catch(|| erltf::encode(&crate::term_json::build(k))).ok().and_then(|r| r.ok()).unwrap_or_else(|| vec![131, 106]);
+            b.extend_from_slice(&kb[1..]);
+            b.extend_from_slice(&[97, i as u8]);
+        }
+        b
     } else {
         bytes_of(&rec["bytes"])
     }
